@@ -165,6 +165,11 @@ pub struct Plan {
     /// many failures (missed seeded change C01-10: 65 of them)
     #[serde(default)]
     pub attrition: u16,
+    /// before anything else this thread reads (successfully) a method that has a label at every one of its 65535
+    /// bytecode offsets: per-thread state that grows with what was read before (a recycled label table whose id counter
+    /// runs on - missed seeded change C01-13) shows in the reads that follow
+    #[serde(default)]
+    pub warmup: bool,
     /// T2: legal schedule + faults
     pub faulty: Option<IoPlan>,
     /// what the faults were aimed at when they were drawn (information; feeds the probes)
@@ -665,7 +670,8 @@ impl Engine for C01 {
         // the fault target must have an offset map: prefer an encoded input
         let target = if !layouts.is_empty() { raw_input as usize + w.usize(layouts.len()) } else { 0 };
         debug_assert!(target < n_inputs);
-        let mut p = Plan { origin, class_hex: hex(&pristine), raw_input, layouts, target, legal: None, tail: 0, head: 0, attrition: 0, faulty: None, aims: vec![] };
+        let mut p = Plan { origin, class_hex: hex(&pristine), raw_input, layouts, target, legal: None, tail: 0, head: 0, attrition: 0, warmup: false, faulty: None, aims: vec![] };
+        p.warmup = rng.split("warmup").chance(2);
         if s.chance(75) {
             p.legal = Some(IoPlan::gen_legal(&mut s));
             if s.chance(50) {
@@ -703,6 +709,14 @@ impl Engine for C01 {
     }
 
     fn exec(&self, p: &Plan, st: &mut RunStats) -> Vec<Violation> {
+        if p.warmup {
+            static HEAVY: std::sync::OnceLock<Vec<u8>> = std::sync::OnceLock::new();
+            let heavy = HEAVY.get_or_init(|| crate::c16::special_bytes("max-labels", 65_535));
+            match read_real(&mut Cursor::new(&heavy[..])) {
+                Out::Ok(_) => st.probe("warmup_label_heavy_read"),
+                _ => st.probe("warmup_refused"),
+            }
+        }
         let mut out: Vec<Violation> = vec![];
         let mut obs = Digest::new();
         let pristine = unhex(&p.class_hex);
@@ -1039,6 +1053,11 @@ impl Engine for C01 {
                     c.push(q);
                 }
             }
+        }
+        if p.warmup {
+            let mut q = p.clone();
+            q.warmup = false;
+            c.push(q);
         }
         if p.attrition > 0 {
             let mut q = p.clone();
